@@ -714,6 +714,55 @@ func (c *ctxT) c12ValidateDecoder(rel, fn string) string {
 	return dec
 }
 
+// ---- 5. genesis import of confirmations: which field decides the owner ---------------------------------------------
+
+// c12GenesisMatch: for every `for` over state.<X>Confirms in InitGenesis, the comparison that selects the oracle a
+// confirmation is filed under: (list, confirmation-side expression, operator, oracle-side expression, store call)
+func (c *ctxT) c12GenesisMatch() [][5]string {
+	var out [][5]string
+	fd := c.findFunc("x/crosschain/keeper", "", "InitGenesis")
+	if fd == nil || fd.Body == nil {
+		return out
+	}
+	ast.Inspect(fd.Body, func(n ast.Node) bool {
+		fs, ok := n.(*ast.ForStmt)
+		if !ok {
+			return true
+		}
+		hdr := ""
+		if fs.Cond != nil {
+			hdr = c.src(fs.Cond)
+		}
+		m := regexp.MustCompile(`state\.(\w*Confirms)`).FindStringSubmatch(hdr)
+		if m == nil {
+			return true
+		}
+		ast.Inspect(fs.Body, func(n2 ast.Node) bool {
+			is, ok := n2.(*ast.IfStmt)
+			if !ok {
+				return true
+			}
+			be, ok := is.Cond.(*ast.BinaryExpr)
+			if !ok {
+				return true
+			}
+			store := ""
+			ast.Inspect(is.Body, func(n3 ast.Node) bool {
+				if ce, ok := n3.(*ast.CallExpr); ok && store == "" {
+					if name, _, ok := keeperCall(ce); ok && strings.HasPrefix(name, "Set") {
+						store = name
+					}
+				}
+				return true
+			})
+			out = append(out, [5]string{m[1], solWS.ReplaceAllString(c.src(be.X), " "), be.Op.String(), solWS.ReplaceAllString(c.src(be.Y), " "), store})
+			return false
+		})
+		return false
+	})
+	return out
+}
+
 // ---- emit ---------------------------------------------------------------------------------------------------------
 
 func leanPairs(ps [][2]string) string {
@@ -845,6 +894,17 @@ structure VStmt where
 	fmt.Fprintf(&sb, "/-- the decoder each Validate…Signature function calls -/\ndef validateDecoders : List (String × String) := [(\"types.ValidateEthereumSignature\", %s), (\"trontypes.ValidateTronSignature\", %s)]\n\n",
 		leanStr(c.c12ValidateDecoder("x/crosschain/types", "ValidateEthereumSignature")), leanStr(c.c12ValidateDecoder("x/tron/types", "ValidateTronSignature")))
 	c.facts["C12.validateProg"] = prog
+
+	gm := c.c12GenesisMatch()
+	sb.WriteString("/-- InitGenesis: per imported confirmation list, the comparison that selects the oracle a confirmation is filed under\n(list, confirmation side, operator, oracle side, store call) -/\ndef genesisConfirmMatch : List (String × String × String × String × String) := [")
+	for i, g := range gm {
+		if i > 0 {
+			sb.WriteString(", ")
+		}
+		fmt.Fprintf(&sb, "(%s, %s, %s, %s, %s)", leanStr(g[0]), leanStr(g[1]), leanStr(g[2]), leanStr(g[3]), leanStr(g[4]))
+	}
+	sb.WriteString("]\n\n")
+	c.facts["C12.genesisConfirmMatch"] = gm
 
 	sb.WriteString(`/-- an argument of ` + "`abi.encodePacked(...)`" + ` in verifySig: a string literal (its bytes) or a parameter (name, declared type) -/
 inductive SolPacked where
